@@ -4,7 +4,10 @@ RECURSIVE MaskOf(_)
 MaskOf(S) == IF S = {} THEN 0 ELSE LET x == CHOOSE y \in S : TRUE IN 2 ^ x + MaskOf(S \ {x})
 OutHash(st, b) == [stored |-> MaskOf(st), b |-> b,
                    hash |-> HashDemand(st, b)[1], cls |-> HashCode(st, b).cls,
-                   extract |-> ExtractDemand(b)[1]]
+                   extract |-> ExtractDemand(b)[1],
+                   \* the container bytes are a well-formed container that verifies for the embedded identifier
+                   \* against the DAH at its height (what the shrex response codecs must decide; extra coverage)
+                   wire |-> IF ContWellFormed(b) /\ Verifies(b.id, b.cont) THEN 1 ELSE 0]
 GenHash(b) == Hash(b) /\ PrintT(ToJson(OutHash(stored, b)))
 GenNext == (\E h \in Heights : Insert(h)) \/ (\E b \in Blocks : GenHash(b))
 =============================================================================
